@@ -266,18 +266,18 @@ func Implements(T, V *abi.Type) bool {
 	if v == nil {
 		return false
 	}
-	i := 0
+	// The two tables are not sorted alike: an interface lists its exported
+	// methods first, a concrete type's table is ordered by the stored names,
+	// in which unexported names carry their package path (which may sort
+	// before an exported name: "9fans.net/x.m" < "M"). Look every interface
+	// method up on its own, as NewItab does.
 	vmethods := v.Methods()
-	for j := 0; j < int(v.Mcount); j++ {
-		tm := &t.Methods[i]
-		vm := vmethods[j]
-		if vm.Name_ == tm.Name_ && vm.Mtyp_ == tm.Typ_ {
-			if i++; i >= len(t.Methods) {
-				return true
-			}
+	for i := range t.Methods {
+		if _, ok := findMethod(vmethods, t.Methods[i]); !ok {
+			return false
 		}
 	}
-	return false
+	return true
 }
 
 func EfaceEqual(v, u eface) bool {
